@@ -9,17 +9,18 @@ def S(name, kind="search", **kw):
 
 GEN = S("gen-corr", "corr")
 MOD = S("models-corr", "corr")
+WIND = S("wind-corr", "corr")
 
 PROPS = {
- "C01": {"level": "other", "lean_module": "ClipVerif.Props.C01", "stages": [GEN, S("c01-search")]},
- "C02": {"level": "other", "lean_module": "ClipVerif.Props.C02", "stages": [GEN, S("c02-search")]},
+ "C01": {"level": "other", "lean_module": "ClipVerif.Props.C01", "stages": [WIND, GEN, S("c01-search")]},
+ "C02": {"level": "other", "lean_module": "ClipVerif.Props.C02", "stages": [WIND, GEN, S("c02-search")]},
  "C03": {"level": "other", "lean_module": "ClipVerif.Props.C03", "stages": [MOD, S("c03-search")]},
  "C04": {"level": "other", "lean_module": "ClipVerif.Props.C04", "stages": [GEN, S("c04-search")]},
  "C05": {"level": "other", "lean_module": "ClipVerif.Props.C05", "stages": [MOD, S("c05-search")]},
  "C06": {"level": "other", "lean_module": "ClipVerif.Props.C06", "stages": [GEN, S("c06-search")]},
  "C07": {"level": "other", "lean_module": "ClipVerif.Props.C07", "stages": [GEN, S("c07-search")]},
  "C08": {"level": "other", "lean_module": "ClipVerif.Props.C08", "stages": [MOD, S("c08-search")]},
- "C09": {"level": "other", "lean_module": "ClipVerif.Props.C09", "stages": [GEN, S("c09-search")]},
+ "C09": {"level": "other", "lean_module": "ClipVerif.Props.C09", "stages": [WIND, GEN, S("c09-search")]},
  "C10": {"level": "other", "lean_module": "ClipVerif.Props.C10", "stages": [MOD, S("c10-search")]},
  "C11": {"level": "other", "lean_module": "ClipVerif.Props.C11", "stages": [GEN, S("c11-search")]},
  "C12": {"level": "other", "lean_module": "ClipVerif.Props.C12", "stages": [S("c12-search")]},
@@ -27,7 +28,7 @@ PROPS = {
  "C14": {"level": "proof", "lean_module": "ClipVerif.Props.C14", "stages": [GEN, MOD, S("c14-search")]},
  "C15": {"level": "proof", "lean_module": "ClipVerif.Props.C15", "stages": [GEN, MOD, S("c15-search")]},
  "C16": {"level": "proof", "lean_module": "ClipVerif.Props.C16", "stages": [GEN, MOD, S("c16-search")]},
- "C17": {"level": "other", "lean_module": "ClipVerif.Props.C17", "stages": [S("c17-search")]},
+ "C17": {"level": "other", "lean_module": "ClipVerif.Props.C17", "stages": [WIND, S("c17-search")]},
  "C18": {"level": "other", "lean_module": "ClipVerif.Props.C18", "stages": [S("c18-hammer", binary="hx-race")]},
- "C19": {"level": "other", "lean_module": "ClipVerif.Props.C19", "stages": [GEN, S("c19-search")]},
+ "C19": {"level": "other", "lean_module": "ClipVerif.Props.C19", "stages": [WIND, GEN, S("c19-search")]},
 }
